@@ -154,6 +154,10 @@ func VerifMessageFromBytes(body []byte, messageType uint8) (kind string,
 	open *VerifOpen, update []byte, notif *Notification, err error) {
 	m, err := messageFromBytes(body, messageType)
 	if err != nil {
+		if m != nil {
+			// a value was returned together with an error
+			return "partial", nil, nil, nil, err
+		}
 		return "", nil, nil, nil, err
 	}
 	switch m := m.(type) {
